@@ -493,6 +493,7 @@ func goid() uint64 {
 }
 
 type cRun struct {
+	Slow        bool // the harness could not finish the run in time; not judged
 	Paused      bool // the pause point was reached
 	HungInFinal bool // the concurrent phase ended, the sequential final observation did not
 	Ops         []porcupine.Operation
@@ -555,7 +556,8 @@ func (w *cWorld) runConcurrentFrom(progs [][]cOp, yieldSeed uint64, viaRPC bool,
 		})
 	}
 	t0 := time.Now()
-	o := Guard(watchdog, func() {
+	txnCount := func() int64 { return atomic.LoadInt64(&mon.Begun) }
+	o := GuardTxn(watchdog, func() {
 		var wg sync.WaitGroup
 		for c := range progs {
 			wg.Add(1)
@@ -597,9 +599,13 @@ func (w *cWorld) runConcurrentFrom(progs [][]cOp, yieldSeed uint64, viaRPC bool,
 			}(c, api)
 		}
 		wg.Wait()
-	})
+	}, txnCount)
 	mon.SetYield(nil)
 	run.Duration = time.Since(t0)
+	if o.Slow {
+		run.Slow = true
+		return run
+	}
 	if o.Hung {
 		run.Hung, run.Dump = true, o.Stack
 		mu.Lock()
@@ -619,7 +625,7 @@ func (w *cWorld) runConcurrentFrom(progs [][]cOp, yieldSeed uint64, viaRPC bool,
 		res := w.exec(api, op)
 		ops = append(ops, porcupine.Operation{ClientId: obs, Input: op, Call: call, Output: res, Return: atomic.AddInt64(&clock, 1)})
 	}
-	fo := Guard(watchdog, func() {
+	fo := GuardTxn(watchdog, func() {
 		for d := 0; d < 3; d++ {
 			final(cOp{Kind: "readdir", Dir: d})
 			for _, n := range append(append([]string{}, cFileNames...), cDirNames...) {
@@ -630,7 +636,11 @@ func (w *cWorld) runConcurrentFrom(progs [][]cOp, yieldSeed uint64, viaRPC bool,
 			final(cOp{Kind: "getattr", File: f})
 			final(cOp{Kind: "read", File: f, Off: 0, Cnt: 16384})
 		}
-	})
+	}, txnCount)
+	if fo.Slow {
+		run.Slow = true
+		return run
+	}
 	if fo.Hung {
 		run.Hung, run.HungInFinal, run.Dump = true, true, fo.Stack
 	}
